@@ -433,6 +433,40 @@ theorem chain_complete (ord : Order) (rules : List Rule) (history : List Rule) (
   have : q.src ∈ history.map (·.src) := List.mem_map.2 ⟨q, hq, rfl⟩
   simp [this]
 
+/-! ## when the hypothesis of `chain_sound`/`chain_complete` holds -/
+
+/-- every group-qualified spelling in `U` is `g/<short version>` for one and the same group `g`
+(the CRD's group) -/
+def SingleGroup (g : Ver) (U : List Ver) : Prop :=
+  ∀ v ∈ U, ∀ s, afterSlash v = some s → v = g ++ '/' :: s
+
+/-- with a single group, `VersionsMatched` is "same short version" on `U` -/
+theorem singleGroup_coherent (g : Ver) (U : List Ver) (h : SingleGroup g U) : Coherent U := by
+  intro x hx y hy hxy
+  unfold trimGroup at hxy
+  unfold versionsMatched
+  by_cases he : x = y
+  · simp [he]
+  · simp only [he, if_false]
+    cases hax : afterSlash x with
+    | none =>
+      cases hay : afterSlash y with
+      | none => simp [hax, hay] at hxy; exact absurd hxy he
+      | some s1 => simp [hax, hay] at hxy; simp [hxy]
+    | some s0 =>
+      cases hay : afterSlash y with
+      | none => simp [hax, hay] at hxy; simp [hxy]
+      | some s1 =>
+        simp [hax, hay] at hxy
+        exact absurd (by rw [h x hx s0 hax, h y hy s1 hay, hxy]) he
+
+/-- `chain_complete` for a CRD with one group -/
+theorem chain_complete_singleGroup (ord : Order) (rules : List Rule) (history : List Rule) (a b g : Ver)
+    (hg : SingleGroup g (a :: b :: (history.map (·.src) ++ versionsOf rules)))
+    (hab : ¬ SameShort a b) (hex : ∃ p, IsChain Matched rules a b p) :
+    ∃ p, (find ord (afterQueries ord (Chain.ofRules rules) history) ⟨a, b⟩).2 = .found p :=
+  chain_complete ord rules history a b (singleGroup_coherent g _ hg) hab hex
+
 /-! ## the not-found oracle of the driver decides existence -/
 
 theorem reach_sound (rules : List Rule) (a : Ver) :
